@@ -278,6 +278,10 @@ class Name(str, enum.Enum):
     A = "a'b"
 
 
+class Tint(enum.StrEnum):
+    RED = "r'ed"
+
+
 NT = collections.namedtuple('NT', 'a b')
 
 
@@ -299,6 +303,8 @@ def _register_subclasses():
     for t in (str, int, float, Decimal, bytes, bytearray, uuid.UUID, datetime.datetime, datetime.date, datetime.time, cu.Time, cu.Date,
               ipaddress.IPv4Address, ipaddress.IPv6Address, cu.Point, list, tuple, set, frozenset, dict):
         subclass_of(t)
+    for t in (str, int, bytes):
+        subclass_of(subclass_of(t))      # class B(A) with class A(T): two levels below the supported type
 
 
 SUBCLASS_FAMILIES = ('str-Enum', 'IntEnum', 'namedtuple', 'defaultdict')
@@ -328,6 +334,10 @@ def scalar_cases(ctx_quick):
     for s in ["abc", "x' OR 1=1", "a'b", "", "é", "1", "null", "x'; DROP TABLE t; --", "0x00", "a b"]:
         add('str-subclass', S(s), 'str-subclass %r' % s)
     add('str-Enum', Name.A)
+    add('str-Enum', Tint.RED, 'StrEnum %r' % Tint.RED.value)
+    S2 = subclass_of(S)
+    for s in ["abc", "x' OR 1=1", "a'b", ""]:
+        add('str-subclass', S2(s), 'str-subclass-of-subclass %r' % s)
 
     ints = [0, 1, -1, 127, -128, 2 ** 31 - 1, -2 ** 31, 2 ** 63 - 1, -2 ** 63, 2 ** 64, -2 ** 64, 10 ** 30, -10 ** 30]
     I = subclass_of(int)
@@ -336,6 +346,9 @@ def scalar_cases(ctx_quick):
     for i in (0, -1, 2 ** 64):
         add('int-subclass', I(i), 'int-subclass %d' % i)
     add('IntEnum', Color.RED)
+    I2 = subclass_of(I)
+    for i in (0, -1, 2 ** 64):
+        add('int-subclass', I2(i), 'int-subclass-of-subclass %d' % i)
     add('bool', True)
     add('bool', False)
 
@@ -365,6 +378,9 @@ def scalar_cases(ctx_quick):
     for b in (b'', b'ab', b"'"):
         add('bytes-subclass', B(b))
         add('bytearray-subclass', BA(b))
+    B2 = subclass_of(B)
+    for b in (b'ab', b"'"):
+        add('bytes-subclass', B2(b), 'bytes-subclass-of-subclass %r' % b)
 
     uuids = ['00000000-0000-0000-0000-000000000000', '12345678-1234-5678-1234-567812345678', '1e234567-e89b-12d3-a456-426655440000',
              'ffffffff-ffff-ffff-ffff-ffffffffffff', 'deadbeef-dead-1eef-8ead-beefdeadbeef', '00000000-0000-1000-8080-808080808080',
